@@ -181,7 +181,9 @@ def _gen_pop_case(rnd, want, opened, dynamic_only=False):
                 c['delay'] = round(d, 9)
                 c['off_grid'] = abs(d / dt - round(d / dt)) > 1e-6
                 risk.add('conn_delay')
-                if rnd.random() < 0.4 or want == 'matrix_delay_source_named_k':
+                if rnd.random() < 0.35 and want != 'matrix_delay_source_named_k':
+                    c['zero_spread'] = rnd.choice([0.0, 0])      # the keyword given explicitly as zero: still a discrete delay
+                elif rnd.random() < 0.4 or want == 'matrix_delay_source_named_k':
                     nord = rnd.choice([1, 2, 3])
                     c['delay'] = round(max(d, 1.5 * nord * dt), 6)
                     c['spread'] = round(c['delay'] / math.sqrt(nord + (0.1 if nord == 1 else rnd.uniform(-0.3, 0.3))), 9)
@@ -247,6 +249,18 @@ def _gen_pop_case(rnd, want, opened, dynamic_only=False):
             continue
         if (set(opened) - {want}) & risk:
             continue
+        # dde_approx: the delayed connections (none of which has a spread) become gamma chains of the order given to run /
+        # get_run_func; the reference gets the equivalent spread d/sqrt(n)
+        dl_ = [c_ for c_ in conns if c_.get('delay')]
+        if want in (None, 'conn_delay') and dl_ and rnd.random() < 0.3 and not any(c_.get('spread') or 'zero_spread' in c_ or c_['kind'] == 'coupling' for c_ in conns):
+            n_ = rnd.choice([1, 2, 3])
+            for c_ in dl_:
+                c_['delay'] = round(max(c_['delay'], 1.5 * n_ * dt), 6)
+                c_['spread_ref'] = c_['delay'] / math.sqrt(n_)
+                c_['off_grid'] = False
+            dde_n = n_
+        else:
+            dde_n = 0
         # an input of an integrator operator that NO connection targets keeps a non-zero declared default
         for pn_, p_ in pops.items():
             if ops[p_['op']].get('__integrator'):
@@ -259,7 +273,10 @@ def _gen_pop_case(rnd, want, opened, dynamic_only=False):
                 if d_[0] == 'in' and not any(tuple(c_['target']) == (pn_, p_['op'], v_) for c_ in conns) and rnd.random() < 0.4:
                     p_['params'][v_] = [round(vals.new(), 4) for _ in range(p_['n'])]
                     p_['input_params'] = True
-        return {'ops': ops, 'pops': pops, 'conns': conns}, sorted(risk)
+        plan_out = {'ops': ops, 'pops': pops, 'conns': conns}
+        if dde_n:
+            plan_out['dde_approx'] = dde_n
+        return plan_out, sorted(risk)
     raise RuntimeError('generator could not satisfy the constraints')
 
 
@@ -319,6 +336,8 @@ def explicit_spec(plan_):
                     a['delay'] = c['delay']
                 if c.get('spread'):
                     a['spread'] = c['spread']
+                elif c.get('spread_ref'):
+                    a['spread'] = c['spread_ref']
                 if et:
                     a[f'{et}/coup_op{ci}/s_pre'] = 'source'
                     if c['form'] not in NO_POST:
@@ -355,6 +374,8 @@ def build_population_circuit(plan_):
             kw['delays'] = c['delay']
         if c.get('spread'):
             kw['spread'] = c['spread']
+        elif 'zero_spread' in c:
+            kw['spread'] = c['zero_spread']
         w = c['w'] if c['kind'] == 'scalar' or c.get('w_scalar') else np.asarray(c['W'], dtype=float)
         conns.append(Connectivity(source=f'{sp}/{sop}/{sv}', target=f'{tp}/{top}/{tv}', weights=w, **kw))
     circ = CircuitTemplate(name='popc', populations=pops, connections=conns)
@@ -402,6 +423,8 @@ def run_case(case, ctx):
                                     ('scalar_weight_couplings', bool(c.get('w_scalar')))):
                     if cond_:
                         mech[key_] = mech.get(key_, 0) + 1
+            if 'zero_spread' in c:
+                mech['explicit_zero_spread'] = mech.get('explicit_zero_spread', 0) + 1
             if c.get('delay'):
                 mech['delayed_connections'] = mech.get('delayed_connections', 0) + 1
                 if c.get('off_grid') and not c.get('spread'):
@@ -479,8 +502,11 @@ def run_case(case, ctx):
                                                                         for i in range(p_['n'])}
                 mech['population_runs_with_extrinsic_input'] = 1
         try:
+            kw_dde = {'dde_approx': plan_['dde_approx']} if plan_.get('dde_approx') else {}
+            if kw_dde:
+                mech['dde_approx_runs'] = 1
             df = tmpl.run(simulation_time=steps * dt, step_size=dt, solver='euler', outputs=dict(outputs), verbose=False, clear=True,
-                          in_place=False, float_precision='float64', inputs=inputs)
+                          in_place=False, float_precision='float64', inputs=inputs, **kw_dde)
         except Exception as e:
             import traceback
             raise observe.Mismatch(f"loud: population circuit run raised {type(e).__name__}: {e} :: {traceback.format_exc()[-500:]}")
